@@ -14,6 +14,7 @@ Extracted on every run from
 """
 import re
 import facts as F
+import inline_helpers as IH
 
 BUF = "sudachi/src/input_text/buffer/mod.rs"
 MECAB = "sudachi/src/plugin/oov/mecab_oov/mod.rs"
@@ -55,7 +56,9 @@ def norm(s):
 
 
 def bow_chain(env):
-    body = F.strip_comments(F.fn_body(F.src(BUF), "build", BUF))
+    buf_text = F.strip_comments(F.src(BUF))
+    # a private helper holding the decision chain (`let can_bow = Self::helper(cat, prev_cat, &mut next_bow);`) is read in place
+    body = IH.inline_calls(buf_text, F.fn_body(buf_text, "build", BUF))
     m = re.search(r"let\s+non_starting\s*=\s*([^;]+);", body)
     if not m:
         raise F.FactError("`let non_starting = ...` not found in %s:build" % BUF)
@@ -146,7 +149,36 @@ def gen():
     fact("continuity_forward", "bool", "true", lambda: "true" if continuity_direction() else "false")
 
     def mec():
-        return norm(F.strip_comments(F.fn_body(F.src(MECAB), "provide_oov_gen", MECAB)))
+        """provide_oov_gen in one canonical spelling: a private helper that pushes one node per unk.def template and returns
+        their number is read as the loop it contains; the locals the patterns below mention are found by their ROLE (bound by
+        cat_continuous_len / initialised with it / loop counter of 1..=length / bound by char_distance) and given their
+        recorded names"""
+        text = F.strip_comments(F.src(MECAB))
+        m = norm(F.fn_body(text, "provide_oov_gen", MECAB))
+        # counting helper: fn h(&self, A, B, C, D) -> usize { let mut n = 0; for o in A { D.push(self.get_oov_node(o, B, C)); n += 1; } n }
+        for mc in list(re.finditer(r"num_created \+= self\.([a-z_][a-z_0-9]*)\(oovs, offset, (offset \+ \w+), nodes\);", m)):
+            fn = IH.private_fn(text, mc.group(1))
+            if not fn or len(fn[0]) != 4:
+                continue
+            a, b, c, d = fn[0]
+            hb = norm(fn[1])
+            if re.fullmatch(r"let mut (\w+) = 0; for (\w+) in %s \{ %s\.push\(self\.get_oov_node\(\2, %s, %s\)\); \1 \+= 1; \} \1" % (a, d, b, c), hb):
+                m = m.replace(mc.group(0), "for oov in oovs { nodes.push(self.get_oov_node(oov, offset, %s)); num_created += 1; }" % mc.group(2))
+        roles = []
+        r = re.search(r"let (\w+) = input\.cat_continuous_len\(offset\);", m)
+        if r:
+            roles.append((r.group(1), "char_len"))
+            r2 = re.search(r"let mut (\w+) = %s;" % re.escape(r.group(1)), m)
+            if r2:
+                roles.append((r2.group(1), "llength"))
+        r = re.search(r"for (\w+) in 1\.\.=?cinfo\.length \{ let (\w+) = input\.char_distance\(offset, \1 as usize\);", m)
+        if r:
+            roles.append((r.group(1), "i"))
+            roles.append((r.group(2), "sublength"))
+        for have, want in roles:
+            if have != want and not re.search(r"(?<![\w.])%s\b" % want, m):
+                m = re.sub(r"(?<![\w.])%s\b" % re.escape(have), want, m)
+        return m
 
     def mecab_shape():
         m = mec()
@@ -235,7 +267,7 @@ def gen():
         i = allsrc.find("impl<'a> LatticeBuilder<'a>")
         if i < 0:
             raise F.FactError("LatticeBuilder impl not found")
-        return norm(F.fn_body(allsrc[i:], "build_lattice", TOK))
+        return norm(IH.inline_calls(allsrc, F.fn_body(allsrc[i:], "build_lattice", TOK)))
 
     def gate():
         m = re.search(r"if !self ?\.input ?\.cat_at_char\(ch_off\) ?\.intersects\(([^)]*)\) \{ for provider in self\.oov_providers \{", tk())
@@ -270,12 +302,12 @@ def gen():
 
     def dic_shift():
         m1 = re.search(r"let dic_part = \(\(dic & 0xf\) as u32\) << (\d+);", wid())
-        m2 = re.search(r"pub fn dic\(&self\) -> u8 \{ return \(self\.raw >> (\d+)\) as u8; \}", wid())
+        m2 = re.search(r"pub fn dic\(&self\) -> u8 \{ (?:return )?\(self\.raw >> (\d+)\) as u8;? \}", wid())
         if not m1 or not m2 or m1.group(1) != m2.group(1):
             raise F.FactError("dictionary part of WordId::new / WordId::dic not recognised or inconsistent")
-        if "let word_part = word & WORD_MASK; let raw = dic_part | word_part;" not in wid():
+        if not re.search(r"let word_part = word & WORD_MASK; (?:let (\w+) = dic_part \| word_part; (?:return )?Self::from_raw\(\1\);?|(?:return )?Self::from_raw\(dic_part \| word_part\);?) \}", wid()):
             raise F.FactError("word part of WordId::new changed")
-        if "pub fn word(&self) -> u32 { return self.raw & WORD_MASK; }" not in wid():
+        if not re.search(r"pub fn word\(&self\) -> u32 \{ (?:return )?self\.raw & WORD_MASK;? \}", wid()):
             raise F.FactError("WordId::word changed")
         return m1.group(1) + "%N"
     fact("word_id_dic_shift", "N", "28%N", dic_shift)
